@@ -43,7 +43,14 @@ RULE = ("dense parameter grids (cut-off/centre in [1e-3, pi-1e-3], bandwidth in 
         "Fraction where the value allows, gammatone.sampled for every eta 1..6 with zero and non-zero phase, cut-offs and centre "
         "frequencies written `f * Hz` with sHz(rate), boundary cut-offs 0 / 1e-9 / 1e-5 / pi-1e-5 / pi-1e-9 / pi (coefficients only), "
         "erb with Hz omitted on both sides of the 7 Hz refusal (7.0, the double below it, ints, Fractions), erb over list / tuple / "
-        "Stream / generator with and without an item that is refused (entry erbmap); a case is non-trivial when the "
+        "Stream / generator with and without an item that is refused (entry erbmap; a lazy result is also READ ON two items past "
+        "its end / past the refusal: StopIteration from then on, Lean erbLazyReads); "
+        "TEE HUBS (entry thub, gen_thub): every thub-based strategy (lowpass / highpass x 4, resonator x 4, comb fb / tau / ff, "
+        "gammatone.klapuri) called with Stream(*values) / number arguments, the filter objects of the result read by a schedule "
+        "(lock-step, or random order with one position running ahead): read number k of position j must be section j of the "
+        "constant design of value number k of each argument (Lean machine thubModel on the transcribed strategy bodies = "
+        "constReads, theorem thub_reads_are_constant_designs); call shapes inside histories (all-keyword, StrategyDict called "
+        "directly); a case is non-trivial when the "
         "implementation returned a filter (no exception; history: at least one instant read and no unexpected exception); "
         "distinct = distinct JSON case")
 TRUSTED = [
@@ -54,6 +61,12 @@ TRUSTED = [
     "gammatone_erb_constants are compared within 4 ulp of the largest coefficient (measured on this machine: bit-exact, histogram "
     "coef_ulp; the 4 ulp leave room for another libm); gammatone.sampled / slaney sections are divided by a MEASURED gain "
     "(abs(freq_response)) and are compared up to one common factor within 1e-9 + 64 ulp * condition number",
+    "tee hubs (ALV/Model/C13Thub.lean): the strategy bodies are transcribed by hand as programs over iterator objects (one leaf "
+    "per use of a parameter / intermediate Stream: the caller's argument itself, or copy c of hub h); itertools.tee is trusted "
+    "(a hub copy at position k yields item k of the hub's source), valid when the hub is the only reader of its source - the "
+    "static ownership conditions are the executable check wfDesign, proved for every program (thub_programs_wellformed) and "
+    "returned by the driver; Poly / ZFilter's own hubs (a Stream scalar times a k-term polynomial takes k copies) are folded "
+    "into the programs; the python side reads filt.numdict / filt.dendict of each filter object of the result",
     "call shapes: which python call a case stands for (strategy lookup, positional / keyword, omitted parameters, numeric type) is "
     "built by harness/props/c13.py:_real_call; the Lean side sees only which parameters are absent (ALV/Model/C13Call.lean) - that "
     "`lowpass.pole`, `lowpass['pole']` and an alias are the same function object is StrategyDict's job (extra checks alias:*)",
@@ -81,6 +94,9 @@ ASSUMPTIONS = [
     "the differentiated numerator never vanishes at the centre frequency: closed form with Eulerian polynomials, "
     "gammatone_sampled_numerator_closed_form / _ne_zero) - over the reals; for eta >= 5 near 0 or pi the Float evaluation "
     "is dominated by rounding (see the tolerance line below)",
+    "gammatone.sampled with Fraction-spelled parameters (gen_calls): the model is the Float model of the binary values - "
+    "`freq - phase`, `-bandwidth` computed in exact Fractions and converted by cos / exp are the correctly rounded float "
+    "operations (CPython's Fraction.__float__ is correctly rounded), measured bit-identical",
     "the branch `if not denR: denR = 1` of lowpass.z / highpass.z (lazy_filters.py 1407, 1423, the only anchored lines of the "
     "property no case executes) is unreachable with binary floats (no double has cos(x) == 0); it is covered by the theorems "
     "(cut-off pi/2 over the reals), not by the tie; phon2dB (lazy_auditory.py 261-290, listed by the anchor tool) needs scipy and "
@@ -105,13 +121,17 @@ ASSUMPTIONS = [
     "freq_response evaluation (sum|c_k| / |sum c_k z^k|); for gammatone.sampled with eta >= 5 at centre frequencies "
     "within ~1e-2 of 0 or pi rounding dominates and the unit-gain check becomes vacuous (histogram gammatone_gain_tolerance)",
 ]
-MANIFEST = {"text": "Lean 4 theorems (72, no sorry/axiom, no PENDING statement) over R about the generic [TrigField] design "
+MANIFEST = {"text": "Lean 4 theorems (83, no sorry/axiom, no PENDING statement) over R about the generic [TrigField] design "
                     "definitions the driver runs at Float: lowpass/highpass gains, half power, monotonicity, pole radii (8 strategies); "
                     "resonators: unit gain, stability, pole radius exp(-bw/2), for z_exp exactly on |cos f| <= 1/cosh(bw/2) (iff; outside "
                     "it a real pole of larger modulus: recorded finding); combs = their difference equations; gammatone slaney / klapuri / "
                     "sampled: EVERY section has unit gain at the centre frequency and poles A e^{+-jf}, A = e^{-bw} < 1 - for sampled for "
                     "every order eta and phase (the numerator after eta-1 passes of ZFilter.diff(mul_after=-z) in closed form with "
-                    "Eulerian polynomials; it never vanishes at e^{jf}); histories of designs sharing parameter objects; the calls with "
+                    "Eulerian polynomials; it never vanishes at e^{jf}); histories of designs sharing parameter objects; Stream-valued arguments at the level of the strategy bodies: a "
+                    "machine over iterator objects (argument / tee-hub copy) run on the transcribed bodies, for every schedule of reads = "
+                    "the constant design of the instant's values (all 16 thub-based strategies), klapuri's four sections are distinct "
+                    "objects, an aliased pair shows the NEXT instant, number arguments make any sharing harmless; poles exist "
+                    "(lowpass / highpass except z at pi/2, resonators), every gammatone section stable; the calls with "
                     "omitted parameters / default strategies (Option-valued call model), erb closed forms / units / monotonicity / Hz=None "
                     "refusal / elementwise mapping, gammatone_erb_constants closed form and 3 dB identity, the time-domain run the driver "
                     "evaluates (runFilter over C04.fspec) = the comb recursions pointwise incl. n < delay; tied to /repo by a "
@@ -367,7 +387,53 @@ def generate(rng, tier, scale=1):
     cases.extend(hist.gen_hist(rng, tier, scale))
     cases.extend(hist.gen_long(rng, tier, scale))
     cases.extend(gen_calls(rng, tier, scale))
+    cases.extend(gen_thub(rng, tier, scale))
     return cases
+
+
+def _thub_kinds():
+    ks = [("lowpass", st, None) for st in LP_STRATS] + [("highpass", st, None) for st in LP_STRATS]
+    ks += [("resonator", st, None) for st in RES_STRATS] + [("klapuri", "klapuri", None)]
+    ks += [("comb", st, d) for st, d in (("fb", 1), ("tau", 2), ("ff", 3))]
+    return ks
+
+
+def gen_thub(rng, tier, scale=1):
+    """entry thub (ALV/Model/C13Thub.lean): ONE design called with Stream-valued / number arguments, its filter objects
+    (the positions of the cascade; one for a plain filter) read by a SCHEDULE - any order, different rates; read number k of
+    position j must show the constant design of value number k of every argument, whatever was read in between"""
+    out = []
+    reps = (1 if tier == "quick" else 6) * scale
+    for _ in range(reps):
+        for kind, st, d in _thub_kinds():
+            two = kind in ("resonator", "klapuri")
+            nsec = 4 if kind == "klapuri" else 1
+            for shape in ("lockstep", "uneven", "uneven") if nsec > 1 else ("lockstep",):
+                n1, n2 = rng.randint(2, 4), rng.randint(2, 3)
+                if kind == "comb":
+                    v1 = [_f(rng.uniform(0.5, 50)) if st == "tau" else _f(rng.choice([-1, 1]) * rng.randint(1, 15) / 16.0)
+                          for _ in range(n1)]
+                    d = rng.randint(1, 6) if scale > 1 or tier != "quick" else d
+                else:
+                    v1 = [_f(_rand_freq(rng)) for _ in range(n1)]
+                v2 = [_f(_rand_bw(rng)) for _ in range(n2)] if two else [_f(0.5)]
+                streams = [True, two]
+                if two:
+                    streams = rng.choice([[True, True], [True, True], [True, False], [False, True]])
+                elif rng.random() < 0.15:
+                    streams = [False, False]
+                v1 = v1 if streams[0] else v1[:1]
+                v2 = v2 if streams[1] else v2[:1]
+                if shape == "lockstep":
+                    sched = list(range(nsec)) * rng.randint(3, 5)
+                else:
+                    sched = [rng.randrange(nsec) for _ in range(rng.randint(8, 14))]
+                    sched += [rng.choice([0, 2])] * 3          # one position runs ahead of the others
+                c = {"entry": "thub", "kind": kind, "strategy": st, "v1": v1, "v2": v2, "streams": streams, "sched": sched}
+                if d is not None:
+                    c["delay"] = d
+                out.append(c)
+    return out
 
 
 
@@ -476,8 +542,16 @@ def gen_calls(rng, tier, scale=1):
                 c["phase"] = _f(rng.choice([0.0, 1.0, -0.5, rng.uniform(-PI, PI)]))
                 c["eta"] = rng.randint(1, 6)
             c = _shape(rng, c)
-            if st != "sampled":            # normalised by a measured gain: exact Fractions change the rounding of freq - phase
-                c = _spell_some(rng, c)
+            # sampled too: Fraction(float) is the binary value, so `freq - phase` / `-bandwidth` in exact Fractions and
+            # then float(...) is the correctly rounded float operation - measured bit-identical on 3000 random calls
+            c = _spell_some(rng, c)
+            cases.append(c)
+        # --- gammatone.sampled with Fraction / int spelled parameters, every order
+        for eta in (1, 2, 3, 4, 5, 6):
+            c = {"entry": "gammatone", "strategy": "sampled", "freq": _f(rng.choice([1.0, 2.0, rng.uniform(0.6, 2.5)])),
+                 "bandwidth": _f(rng.choice([1.0, 0.5, rng.uniform(0.05, 1.0)])),
+                 "phase": _f(rng.choice([0.0, 1.0, -0.5, rng.uniform(-PI, PI)])), "eta": eta}
+            c["spell"] = {k: "frac" for k in ("freq", "bandwidth", "phase") if rng.random() < 0.8} or {"freq": "frac"}
             cases.append(c)
         # --- gammatone.sampled: every order with a non-zero phase and with phase 0 (well conditioned centre frequencies)
         for eta in (1, 2, 3, 4, 5, 6):
@@ -607,7 +681,49 @@ def _impl_erbmap(c):
         except Exception as ex:
             o["items"].append({"err": err_kind(ex)})
             break
+    # ... and READING ON: two reads more than there are frequencies, refusals and the end included (a lazy result only;
+    # from a second result of the same call, so that "items" above stays what it was)
+    if cont in ("Stream", "gen"):
+        arg2 = {"Stream": lambda v: al.Stream(v), "gen": lambda v: (x for x in v)}[cont](fs)
+        it2 = iter(fn(arg2, **kw))
+        o["reads"] = []
+        for _ in range(len(fs) + 2):
+            try:
+                o["reads"].append({"v": enc(float(next(it2)))})
+            except StopIteration:
+                o["reads"].append({"stop": True})
+            except Exception as ex:
+                o["reads"].append({"err": err_kind(ex)})
     return o
+
+
+def _impl_thub(c):
+    """the real design with Stream(*values) / number arguments; per schedule entry j one item of every coefficient of the
+    filter object at position j of the cascade (numdict / dendict; a number coefficient is itself)"""
+    import warnings
+    import audiolazy as al
+    with warnings.catch_warnings():
+        warnings.simplefilter("ignore")
+        args = []
+        for vals, as_stream in zip((c["v1"], c["v2"]), c["streams"]):
+            vals = [_fl(x) for x in vals]
+            args.append(al.Stream(*vals) if as_stream else vals[0])
+        k = c["kind"]
+        if k in ("lowpass", "highpass"):
+            filt = getattr(al, k)[c["strategy"]](args[0])
+        elif k == "resonator":
+            filt = al.resonator[c["strategy"]](args[0], args[1])
+        elif k == "klapuri":
+            filt = al.gammatone.klapuri(args[0], args[1])
+        else:
+            filt = al.comb[c["strategy"]](c["delay"], args[0])
+        objs = list(filt) if isinstance(filt, al.CascadeFilter) else [filt]
+        cols = [({int(kk): v for kk, v in f.numdict.items()}, {int(kk): v for kk, v in f.dendict.items()}) for f in objs]
+        reads = []
+        for j in c["sched"]:
+            n, d = hist._instant(cols[j][0]), hist._instant(cols[j][1])
+            reads.append(None if n is None or d is None else {"num": n, "den": d})
+        return {"reads": reads, "nobj": len(objs), "distinct_objects": len(set(id(f) for f in objs)) == len(objs)}
 
 
 def impl(c):
@@ -668,6 +784,8 @@ def impl_here(c):
         if e == "erb_constants":
             x, y = al.gammatone_erb_constants(c["n"])
             return {"value": [enc(float(x)), enc(float(y))]}
+        if e == "thub":
+            return _impl_thub(c)
         if e == "stream":
             d, n = c["design"], c["take"]
             if d in ("lowpass", "highpass"):
@@ -937,6 +1055,35 @@ def _problems(c, io, drv):
     elif e == "erb_constants":
         if not _ulp_close(io["value"][:1], drv["model"][:1]) or not _ulp_close(io["value"][1:], drv["model"][1:]):
             out.append(("model", name + ":value", "impl %r model %r" % (io["value"], drv["model"])))
+    elif e == "thub":
+        name = "thub." + c["kind"] + "." + c["strategy"]
+        if drv.get("wf") is not True:
+            out.append(("model", name + ":program-not-wellformed", "wfDesign of the strategy's stream program is false"))
+
+        def tz(xs):
+            xs = list(xs)
+            while len(xs) > 1 and _fl(xs[-1]) == 0:
+                xs.pop()
+            return xs
+        past = []
+        for t, (j, got) in enumerate(zip(c["sched"], io["reads"])):
+            k = past.count(j)
+            past.append(j)
+            if got is None:
+                out.append(("spec", name + ":coefficient-stream-ended", "read %d (position %d, its read number %d): a coefficient "
+                            "Stream has ended" % (t, j, k)))
+                return out
+            for part in ("num", "den"):
+                want = tz(drv["spec"][t][part])
+                if not _ulp_close(tz(got[part]), want):
+                    out.append(("spec", name + ":sample-by-sample", "read %d = read number %d of position %d, %s: Stream-valued "
+                                "design %r, constant design of value number %d of each argument %r" % (
+                                    t, k, j, part, [_fl(x) for x in got[part]], k, [_fl(x) for x in want])))
+                if not _ulp_close(tz(got[part]), tz(drv["model"][t][part])):
+                    out.append(("model", name + ":sample-by-sample", "read %d (position %d, its read number %d) %s: impl %r model %r" % (
+                        t, j, k, part, [_fl(x) for x in got[part]], [_fl(x) for x in drv["model"][t][part]])))
+            if out:
+                return out
     elif e == "stream":
         name = "stream." + c["design"] + "." + c["strategy"]
         n = c["take"]
@@ -999,6 +1146,15 @@ def _problems_erbmap(c, io, drv):
         elif not _ulp_close([got["v"]], [w["model"]]):
             bad("elementwise", "item %d (frequency %r): %r, the call on that frequency alone gives %r" % (
                 k, _fl(c["freqs"][k]), _fl(got["v"]), _fl(w["model"])))
+    if "reads" in io:
+        # reading on after a refusal / after the end (Lean erbLazyReads, theorem erb_lazy_reading_on)
+        for k, (got, w) in enumerate(zip(io["reads"], drv["reads"])):
+            same = (got.get("stop") is True and w.get("stop") is True) or \
+                   ("err" in got and got.get("err") == w.get("err")) or \
+                   ("v" in got and "model" in w and _ulp_close([got["v"]], [w["model"]]))
+            if not same:
+                bad("reading-on", "read %d of the lazy result: impl %r, required %r" % (k, got, w))
+                break
     return out
 
 
@@ -1060,6 +1216,16 @@ def tally(eng, c, io):
         if "err" in io:
             eng.count("impl_error", io["err"])
         hist.tally_long(eng, c, io)
+        return
+    if e == "thub":
+        eng.count("entry", "thub." + c["kind"] + "." + c["strategy"])
+        eng.count("thub_args", "/".join("Stream" if b else "number" for b in c["streams"][:2 if c["kind"] in ("resonator", "klapuri") else 1]))
+        nsec = io.get("nobj", 1)
+        cnt = [c["sched"].count(j) for j in range(nsec)]
+        eng.count("thub_schedule", "one filter object" if nsec == 1 else
+                  "cascade, lock-step" if c["sched"] == list(range(nsec)) * cnt[0] else "cascade, uneven rates / order")
+        if "err" in io:
+            eng.count("impl_error", io["err"])
         return
     eng.count("entry", e + ("." + c["design"] if e == "stream" else "") + "." + str(c.get("strategy", "")))
     if e in DEFAULT_STRATEGY and "sig" not in c:
@@ -1170,6 +1336,14 @@ def shrink(c):
         for v in _simpler(c["param"]):
             yield dict(c, param=_f(v))
         return
+    if e == "thub":
+        if len(c["sched"]) > 1:
+            yield dict(c, sched=c["sched"][:-1])
+            yield dict(c, sched=c["sched"][1:])
+        for k in ("v1", "v2"):
+            if len(c[k]) > 1:
+                yield dict(c, **{k: c[k][:-1]})
+        return
     if e == "stream":
         for k in ("cutoff", "freq", "bandwidth", "param"):
             if isinstance(c.get(k), list) and len(c[k]) > 1:
@@ -1205,7 +1379,7 @@ def shrink(c):
 
 def neighbours(c):
     e = c["entry"]
-    if e in ("hist", "combhist", "run"):
+    if e in ("hist", "combhist", "run", "thub"):
         return
     for k in ("cutoff", "freq", "bandwidth", "param"):
         if k in c and not isinstance(c[k], list) and "rate" not in c and k not in c.get("spell", {}) and e != "erbmap":
